@@ -117,9 +117,23 @@ def oracle(case, obs) -> List[str]:
     out = []
     if "raises" in obs["canon"]:
         return [f"parsing a well-formed trace raises {obs['canon']['raises']}: no links at all"]
+    def file_side(r):
+        # which side an event is on, read off the file: a device activity has an integer stream number (a handle string
+        # on a ROCm host call is not one) or is a synchronisation record by name
+        ev = case["ranks"].get(r, case["ranks"].get(str(r), []))
+        side = {}
+        for i, e in enumerate(ev):
+            if isinstance(e, dict) and "dur" in e:
+                a = e.get("args") or {}
+                st = a.get("stream", -1)
+                c = a.get("correlation", -1)
+                side[i] = (isinstance(st, int) and not isinstance(st, bool) and st >= 0 and isinstance(c, int) and c >= 0) or e.get("name") in SYNC_NAMES
+        return side
     for which, frames in (("parsed", obs["rows"]), ("loaded", obs["loaded"])):
         for r, rows in frames.items():
             by_idx = {x[0]: x for x in rows}
+            side = file_side(r)
+            _dev = lambda x, side=side: side.get(x[0], (x[5] >= 0 and x[6] >= 0) or x[9] in SYNC_NAMES)      # noqa: E731
             for x in rows:
                 partners = [p for p in rows if p[6] == x[6] and x[6] != -1 and _dev(p) != _dev(x)]
                 link = x[7]
